@@ -704,10 +704,12 @@ class BaseProject(object, metaclass=ABCMeta):
         self.workflow.remove_absence_time_list(self.absence_time_list)
         self.organization.remove_absence_time_list(self.absence_time_list)
 
+        step_num_before = len(self.cost_list)
         for step_time in sorted(self.absence_time_list, reverse=True):
             if step_time < len(self.cost_list):
                 self.cost_list.pop(step_time)
-        self.time = self.time - len(self.absence_time_list)
+        # only the steps which were really removed (inside the simulated range) shorten the project
+        self.time = self.time - (step_num_before - len(self.cost_list))
         self.absence_time_list = []
 
     def insert_absence_time_list(self, absence_time_list):
@@ -728,11 +730,13 @@ class BaseProject(object, metaclass=ABCMeta):
         self.workflow.insert_absence_time_list(new_absence_time_list)
         self.organization.insert_absence_time_list(new_absence_time_list)
 
+        step_num_before = len(self.cost_list)
         for step_time in sorted(new_absence_time_list):
             if step_time < len(self.cost_list):
                 self.cost_list.insert(step_time, 0.0)
 
-        self.time = self.time + len(new_absence_time_list)
+        # only the steps which were really inserted (inside the simulated range) lengthen the project
+        self.time = self.time + (len(self.cost_list) - step_num_before)
         self.absence_time_list.extend(new_absence_time_list)
 
     def set_last_datetime(
